@@ -27,22 +27,22 @@ func (d *D) Property() string { return "C14" }
 func (d *D) Level() string    { return "fault_enumeration" }
 
 type tierCfg struct {
-	gen, corpus, probes, endless, l2 int
-	budget                           int
-	exhaustMax                       int
-	sample                           int
+	gen, corpus, probes, endless, l2, tails int
+	budget                                  int
+	exhaustMax                              int
+	sample                                  int
 }
 
 func cfg(tier string) tierCfg {
 	if tier == "thorough" {
-		return tierCfg{gen: 12000, corpus: 382 * 4, probes: 21 * 6, endless: 300, l2: 3000, budget: 200000, exhaustMax: 1500, sample: 400}
+		return tierCfg{gen: 12000, corpus: 382 * 4, probes: 21 * 6, endless: 300, l2: 3000, tails: 60, budget: 200000, exhaustMax: 1500, sample: 400}
 	}
-	return tierCfg{gen: 260, corpus: 120, probes: 21 * 2, endless: 30, l2: 48, budget: 20000, exhaustMax: 400, sample: 200}
+	return tierCfg{gen: 260, corpus: 120, probes: 21 * 2, endless: 30, l2: 48, tails: 15, budget: 20000, exhaustMax: 400, sample: 200}
 }
 
 func (d *D) Count(tier string) int {
 	c := cfg(tier)
-	return c.gen + c.corpus + c.probes + c.endless + c.l2
+	return c.gen + c.corpus + c.probes + c.endless + c.l2 + c.tails
 }
 
 var probeNs = []int{5, 40, 3, 17, 64, 200}
@@ -52,6 +52,12 @@ func (d *D) Base(idx int, ctx *core.Ctx) (*core.Scenario, *work.Probe) {
 	c := cfg(ctx.Tier)
 	r := core.ItemRNG(ctx.Seed, "C14", idx)
 	switch {
+	case idx >= c.gen+c.corpus+c.probes+c.endless+c.l2:
+		t := work.Tails[(idx-(c.gen+c.corpus+c.probes+c.endless+c.l2))%len(work.Tails)]
+		sc := &core.Scenario{Property: "C14", Seed: ctx.Seed, Index: idx, Level: "L1", Kind: "tail", Program: t.Program, Inputs: t.Inputs,
+			Events: t.Events, RandSeed: 1, NoTestSummary: idx%2 == 0, ReplayExact: true}
+		sc.Schedule.Map.Default.Kind = "asc"
+		return sc, nil
 	case idx < c.probes:
 		n := probeNs[(idx/21)%len(probeNs)]
 		ps := work.Probes(n)
@@ -94,7 +100,7 @@ func (d *D) Base(idx int, ctx *core.Ctx) (*core.Scenario, *work.Probe) {
 // Regen implements core.Driver.
 func (d *D) Regen(idx int, ctx *core.Ctx) *core.Scenario {
 	c := cfg(ctx.Tier)
-	if idx >= c.gen+c.corpus+c.probes+c.endless {
+	if idx >= c.gen+c.corpus+c.probes+c.endless && idx < c.gen+c.corpus+c.probes+c.endless+c.l2 {
 		return l2Base(idx, ctx)
 	}
 	sc, _ := d.Base(idx, ctx)
@@ -320,7 +326,7 @@ func faultPoints(r *prng.R, ref *core.Result, c tierCfg) ([]int, bool) {
 // RunItem checks one program at all chosen fault points.
 func (d *D) RunItem(idx int, ctx *core.Ctx) {
 	c := cfg(ctx.Tier)
-	if idx >= c.gen+c.corpus+c.probes+c.endless {
+	if idx >= c.gen+c.corpus+c.probes+c.endless && idx < c.gen+c.corpus+c.probes+c.endless+c.l2 {
 		d.runL2Item(idx, ctx)
 		return
 	}
